@@ -517,7 +517,9 @@ impl Xot {
         for ancestor in self.ancestors(node) {
             for (key, value) in self.namespaces(ancestor).iter() {
                 if seen.contains(&key) {
-                    return None;
+                    // this declaration is shadowed by a nearer one, but
+                    // another prefix may still be bound to the namespace
+                    continue;
                 }
                 seen.insert(key);
                 if *value == namespace {
@@ -527,7 +529,7 @@ impl Xot {
         }
         for (key, value) in self.base_prefixes() {
             if seen.contains(&key) {
-                return None;
+                continue;
             }
             seen.insert(key);
             if value == namespace {
